@@ -30,7 +30,7 @@ pub const H_VARS: [&str; 3] = ["a", "b", "f"];
 pub const H_FNS: [&str; 3] = ["f", "g", "len"];
 /// sentinel behaviours a function name can be bound to; `c` is stateful (a counter whose state is
 /// copied when the context is cloned)
-pub const BEHAVIOURS: [&str; 6] = ["f", "g", "h", "k", "n", "c"];
+pub const BEHAVIOURS: [&str; 7] = ["f", "g", "h", "k", "n", "c", "r"];
 pub const MAX_ACTORS: usize = 4;
 
 pub fn static_behaviour(b: &str) -> &'static str {
@@ -302,26 +302,38 @@ pub struct Step {
 #[derive(Clone, Debug, PartialEq, Default)]
 pub struct History {
     pub steps: Vec<Step>,
+    /// the complete state of every actor is observed after every `observe_every`-th step and at
+    /// the end (0 or 1: after every step). Observation itself exercises the listing code, so some
+    /// histories deliberately observe rarely (state that a listing would repair stays stale).
+    pub observe_every: usize,
 }
 
 impl History {
     pub fn to_json(&self) -> Json {
-        Json::Arr(
+        let mut v: Vec<Json> = vec![Json::obj()
+            .with("op", Json::s("config"))
+            .with("observe_every", Json::u(self.observe_every as u64))];
+        v.extend(
             self.steps
                 .iter()
-                .map(|s| s.op.to_json().with("actor", Json::u(s.actor as u64)))
-                .collect(),
-        )
+                .map(|s| s.op.to_json().with("actor", Json::u(s.actor as u64))),
+        );
+        Json::Arr(v)
     }
     pub fn from_json(j: &Json) -> Result<History, String> {
         let mut steps = Vec::new();
+        let mut observe_every = 1;
         for s in j.as_arr().ok_or("history is not an array")? {
+            if s.get("op").and_then(|o| o.as_str()) == Some("config") {
+                observe_every = s.get("observe_every").and_then(|x| x.as_u64()).unwrap_or(1) as usize;
+                continue;
+            }
             steps.push(Step {
                 actor: s.u64_field("actor")? as usize,
                 op: Op::from_json(s)?,
             });
         }
-        Ok(History { steps })
+        Ok(History { steps, observe_every })
     }
     pub fn hash(&self) -> u64 {
         let mut h = Fnv::new();
@@ -744,7 +756,7 @@ fn macro_function(rec: Option<Rec>) -> impl Fn(&V) -> R + Send + Sync + Clone + 
                 r.log.push(Ev::Call("g".to_string(), cv(arg)));
                 if r.faults.binary_search(&idx).is_ok() {
                     r.fired.push((idx, crate::env::FaultKind::CallError));
-                    return Err(injected_error(idx));
+                    return Err(crate::env::injected_call_error(idx, arg));
                 }
             }
         }
@@ -1051,7 +1063,12 @@ pub fn run_history(
                 actual,
             });
         }
-        // complete observable state of EVERY actor
+        // complete observable state of EVERY actor (after every `observe_every`-th step, and
+        // after the last one)
+        let observe_now = h.observe_every <= 1 || (i + 1) % h.observe_every == 0 || i + 1 == h.steps.len();
+        if !observe_now {
+            continue;
+        }
         for (k, actor) in actors.iter().enumerate() {
             let om = observe_model(&actor.model);
             let or = match catch_unwind(AssertUnwindSafe(|| observe_real(&actor.ctx))) {
@@ -1120,6 +1137,7 @@ fn classify_faults(op: &Op, expected: &str, stats: &mut Stats) {
 
 #[derive(Clone, Debug)]
 pub struct HistCfg {
+    pub observe_every: usize,
     pub steps: usize,
     pub fault_free: bool,
     pub weights: [u32; 17],
@@ -1143,6 +1161,7 @@ pub fn hist_cfg(rng: &mut Rng) -> HistCfg {
         weights[1] = 1;
     }
     HistCfg {
+        observe_every: *rng.pick(&[1usize, 1, 1, 3, 7, 1000]),
         steps: *rng.pick(&[3usize, 6, 10, 20, 40]),
         fault_free,
         weights,
@@ -1163,7 +1182,9 @@ fn gen_program(
         fail_leaf_pct: if cfg.fault_free { 0 } else { *rng.pick(&[0u64, 5, 15]) },
         builtins: if model.disabled { rng.percent(25) } else { rng.percent(50) },
         spiny: false,
-        max_statements: 1,
+        // mostly single statements (their outcome does not depend on evaluation order); now and
+        // then a two-statement chain (a failing first statement must fail the whole program)
+        max_statements: if statement && rng.percent(12) { 2 } else { 1 },
         assign_pct: if statement { 85 } else { 0 },
         nested_statements: false,
     };
@@ -1186,7 +1207,10 @@ fn gen_program(
 pub fn gen_history(work: &mut Rng, sched: &mut Rng, conf: &mut Rng, d: &mut Delegate) -> History {
     let cfg = hist_cfg(conf);
     let mut models: Vec<Model> = vec![Model::default()];
-    let mut h = History::default();
+    let mut h = History {
+        steps: Vec::new(),
+        observe_every: cfg.observe_every,
+    };
     for _ in 0..cfg.steps {
         let a = sched.usize_below(models.len());
         let mut kind = work.weighted(&cfg.weights);
@@ -1338,7 +1362,7 @@ pub fn shrink_history(h: &History) -> Vec<History> {
             let end = (start + chunk).min(n);
             let mut steps = h.steps[..start].to_vec();
             steps.extend_from_slice(&h.steps[end..]);
-            out.push(History { steps });
+            out.push(History { steps, observe_every: h.observe_every });
             start += chunk;
         }
         if chunk == 1 {
@@ -1408,12 +1432,12 @@ pub fn shrink_history(h: &History) -> Vec<History> {
         for v in variants {
             let mut steps = h.steps.clone();
             steps[i] = Step { actor: step.actor, op: v };
-            out.push(History { steps });
+            out.push(History { steps, observe_every: h.observe_every });
         }
         if step.actor != 0 {
             let mut steps = h.steps.clone();
             steps[i].actor = 0;
-            out.push(History { steps });
+            out.push(History { steps, observe_every: h.observe_every });
         }
     }
     out
